@@ -3,6 +3,8 @@ mod c05;
 mod c06;
 mod c07;
 mod c11;
+mod c12;
+mod c14;
 mod c15;
 mod elems;
 mod grid;
@@ -39,6 +41,8 @@ fn main() {
         "c07" => c07::run(&tier),
         "c15" => c15::run(&tier),
         "c11" => c11::run(&tier),
+        "c12" => c12::run(&tier),
+        "c14" => c14::run(&tier, std::env::var("VERIF_SEED").ok().and_then(|s| s.parse().ok()).unwrap_or(0)),
         _ => panic!("unknown part"),
     };
     let j = J::A(parts.iter().map(|g| g.to_json()).collect());
